@@ -141,23 +141,34 @@ func c08SemaClass(t sema.Type, depth int) string {
 	return t.QualifiedString()
 }
 
-// c08Coarse is the coarser class used in transitivity signatures (three types
-// per signature): atoms by name, nominal types by composite kind, constructed
-// types by outermost constructor, kind (resource / struct) and whether the
-// bottom type Never occurs inside.
+// c08Coarse is the class used in transitivity signatures (three types per
+// signature, so it is deliberately coarse and independent of the constructor
+// nesting): atoms by name; every other type by kind (resource / struct),
+// whether the bottom type Never occurs inside, and whether one of the
+// kind-based top types AnyResource / AnyStruct occurs inside.
 func c08Coarse(t tygen.Ty) string {
 	switch t.Kind {
 	case "prim", "nominal":
 		return c08SemaClass(t.Sema, 0)
 	}
-	s := t.Kind
+	s := "struct"
 	if t.Resource {
-		s += ":resource"
-	} else {
-		s += ":struct"
+		s = "resource"
 	}
 	if c08HasNever(t.Sema) {
 		s += "+never"
+	}
+	mentions := map[string]bool{}
+	c09Leaves(t.Sema, func(leaf sema.Type) {
+		if leaf == sema.AnyResourceType || leaf == sema.AnyStructType {
+			mentions[leaf.QualifiedString()] = true
+		}
+	})
+	if mentions["AnyResource"] {
+		s += "+AnyResource"
+	}
+	if mentions["AnyStruct"] {
+		s += "+AnyStruct"
 	}
 	return s
 }
